@@ -55,9 +55,11 @@ theorem liveCounted_pos (s : S) (k : Nat) (h : streamLiveCounted s k = true) : 0
       simp [List.mem_filter, hm, liveCounted, h.1, h.2]
     exact List.length_pos_of_mem this
 
-/-- a live counted client stream only exists while a two-way request is being forwarded -/
+/-- a live counted client stream only exists while a two-way request is being forwarded, or — as the open stream of a
+streamed response whose head was accepted — during the response pass -/
 theorem live_ctx (c : Cfg) (ar aq : Nat) (s : S) (h : Inv c ar aq s) (hl : 0 < liveCount s.streams) :
-    s.cleaned = false ∧ c.oneway = false ∧ fwdPhase s.phase = true := by
+    s.cleaned = false ∧ c.oneway = false ∧
+    (fwdPhase s.phase = true ∨ (upPhase s.phase = true ∧ s.urr = true ∧ respHasMore s.resp = true)) := by
   have hc : s.cleaned = false := by
     cases hcl : s.cleaned with
     | false => rfl
@@ -70,24 +72,43 @@ theorem live_ctx (c : Cfg) (ar aq : Nat) (s : S) (h : Inv c ar aq s) (hl : 0 < l
   rcases phase_cases s.phase with hp | hp | hp | hp
   · have := (h.k17 hc hp).2.2.1
     simp [this] at hl
-  · exact hp
-  · have := (h.k15 hc hp).1; omega
+  · exact Or.inl hp
+  · rcases (h.k15 hc hp).1 with h0 | h1
+    · omega
+    · exact Or.inr ⟨hp, h1.1, h1.2⟩
   · exact absurd hp (h.k19 hc)
 
-/-- the facts available when a counted client stream is live -/
-theorem live_facts (c : Cfg) (ar aq : Nat) (s : S) (k : Nat) (h : Inv c ar aq s) (hlc : streamLiveCounted s k = true) :
+/-- the facts available when a counted client stream is live and no response was accepted -/
+theorem live_facts (c : Cfg) (ar aq : Nat) (s : S) (k : Nat) (h : Inv c ar aq s) (hlc : streamLiveCounted s k = true)
+    (hurr : s.urr = false) :
     s.cleaned = false ∧ c.oneway = false ∧ fwdPhase s.phase = true ∧ prePhase s.phase = false ∧ upPhase s.phase = false ∧
     s.setupRetry = false := by
-  obtain ⟨hcl, how, hfwd⟩ := live_ctx c ar aq s h (liveCounted_pos s k hlc)
+  obtain ⟨hcl, how, hph⟩ := live_ctx c ar aq s h (liveCounted_pos s k hlc)
+  have hfwd : fwdPhase s.phase = true := by
+    rcases hph with hf | ⟨_, hu, _⟩
+    · exact hf
+    · rw [hurr] at hu; cases hu
   obtain ⟨hpre, hup, _⟩ := phase_excl s.phase hfwd
   exact ⟨hcl, how, hfwd, hpre, hup, (h.k7 hcl).1⟩
 
-/-- destroying a client stream after an (optional) `upstreamRequest.OnResetStream` while forwarding -/
+theorem phase_excl_up (p : Phase) : (upPhase p = true → prePhase p = false ∧ fwdPhase p = false ∧ p ≠ .End ∧ p ≠ .Retry ∧
+    p ≠ .DownFilterAfterChooseHost ∧ p ≠ .DownRecvHeader) := by
+  cases p <;> simp [prePhase, fwdPhase, upPhase]
+
+/-- destroying a live client stream after an (optional) `upstreamRequest.OnResetStream`: while forwarding, or — for the
+open stream of a streamed response — at any later point (a reset is then delivered only while the worker waits for
+the body: phases `UpRecvData` / `UpRecvTrailer`) -/
 theorem inv_reset_destroy (c : Cfg) (ar aq : Nat) (s : S) (k : Nat) (r : Reason) (fire : Bool) (h : Inv c ar aq s)
-    (hlc : streamLiveCounted s k = true) :
+    (hlc : streamLiveCounted s k = true)
+    (hfire : fire = true → s.urr = true → s.phase = .UpRecvData ∨ s.phase = .UpRecvTrailer) :
     Inv c ar aq (destroyStream c (if fire then upOnResetStream s r else s) k) := by
-  obtain ⟨hcl, how, hfwd, hpre, hup, hsr⟩ := live_facts c ar aq s k h hlc
-  have h18 := h.k18 hcl hfwd
+  have hlpos := liveCounted_pos s k hlc
+  obtain ⟨hcl, how, hph⟩ := live_ctx c ar aq s h hlpos
+  have hsr : s.setupRetry = false := (h.k7 hcl).1
+  have hpre : prePhase s.phase = false := by
+    rcases hph with hf | ⟨hu, _⟩
+    · exact (phase_excl s.phase hf).1
+    · exact (phase_excl_up s.phase hu).1
   have hled : LedgerOk c aq (if fire then upOnResetStream s r else s) := by
     cases fire
     · exact ⟨h.k10, h.k11, h.k14⟩
@@ -100,24 +121,27 @@ theorem inv_reset_destroy (c : Cfg) (ar aq : Nat) (s : S) (k : Nat) (r : Reason)
     cases fire
     · exact hlv
     · exact hlv
-  have h23 : K23 (destroyStream c (if fire then upOnResetStream s r else s) k) := fun _ _ => allDead_liveCount hdead
+  have hl0 := allDead_liveCount hdead
+  have h23 : K23 (destroyStream c (if fire then upOnResetStream s r else s) k) := fun _ _ => hl0
   have h22 : K22 c (destroyStream c (if fire then upOnResetStream s r else s) k) := by
     apply K22_destroyStream
     cases fire
     · exact h.k22
     · exact h.k22
-  have hnd : s.direct = false := not_direct_of_live h.k7 hcl (liveCounted_pos s k hlc)
+  have hnd : s.direct = false := not_direct_of_live h.k7 hcl hlpos
   have h7' : K7 (destroyStream c (if fire then upOnResetStream s r else s) k) := by
     apply k7_intro
     · cases fire <;> simp [upOnResetStream, hsr]
     · cases fire <;> simp [upOnResetStream, hnd]
+  have hur : s.upReset = false := by
+    cases hu : s.upReset with
+    | false => rfl
+    | true => have := h.k23 hcl (Or.inl hu); omega
   obtain ⟨k0, k1, k2, k3, k4, k5, k6, k7, k8, k9, k10, k11, k12, k13, k14, k15, k16, k17, k18, k19, k20, k21, k22, k23, k24, k25, k26, k27, k28, k29, k30, k31, k32, k33⟩ := h
   have hnr : s.phase ≠ .Retry := by
     intro hp
     have := k23 hcl (Or.inr hp)
-    have := liveCounted_pos s k hlc
     omega
-  have hlpos := liveCounted_pos s k hlc
   have hn30 : ¬ (s.phase = .DownFilterAfterChooseHost ∨ s.phase = .DownRecvHeader) := by
     intro hp
     have := (k30 hcl hp).1
@@ -130,24 +154,50 @@ theorem inv_reset_destroy (c : Cfg) (ar aq : Nat) (s : S) (k : Nat) (r : Reason)
   cases fire
   · refine ⟨k0, k1, k2, k3, k4, k5, k6, h7', k8, k9, hd.1, hd.2.1, k12, ?_, hd.2.2, ?_, k16, ?_, k18, k19, ?_, k21, h22, h23, k24, k25, k26, ?_, k28, k29, h30, k31, k32, (fun hh => absurd hh (by simp [hcl]))⟩
     · intro hh; exact absurd hh (by simp [hcl])
-    · intro _ hh; exact absurd hh (by simp [hup])
+    · intro _ hupp
+      obtain ⟨_, b2, b3, b4, b5, b6, b7⟩ := k15 hcl hupp
+      exact ⟨Or.inl hl0, b2, b3, b4, b5, b6, b7⟩
     · intro _ hh; exact absurd hh (by simp [hpre])
     · intro hh; exact absurd hh (by simp [how])
-    · intro _ _ hu
-      have := k27 hcl hfwd hu
-      rcases this with h | ⟨_, h⟩
+    · intro _ hfwd hu
+      rcases k27 hcl hfwd hu with h | ⟨h1, _⟩
       · left; exact h
-      · omega
-  · refine ⟨k0, k1, k2, k3, k4, k5, k6, h7', k8, k9, hd.1, hd.2.1, k12, ?_, hd.2.2, ?_, k16, ?_, ?_, k19, ?_, k21, h22, h23, k24, k25, ?_, ?_, ?_, k29, h30, k31, k32, (fun hh => absurd hh (by simp [upOnResetStream, hcl]))⟩
-    · intro hh; exact absurd hh (by simp [upOnResetStream, hcl])
-    · intro _ hh; exact absurd hh (by simp [upOnResetStream, hup])
-    · intro _ hh; exact absurd hh (by simp [upOnResetStream, hpre])
-    · simp only [K18, upOnResetStream, destroyStream, ite_true] at k18 ⊢
-      grind
-    · intro hh; exact absurd hh (by simp [how])
-    · intro _ hp; exact absurd hp hnr
-    · intro _ _ _; left; simp [upOnResetStream, hsr]
-    · intro _ _; right; left; simp [upOnResetStream, hsr]
+      · right; exact ⟨h1, Or.inl hl0⟩
+  · rcases hph with hfwd | ⟨hupp, hurr, hmore⟩
+    · -- while forwarding (no response accepted yet, or accepted and still waiting to be picked up)
+      obtain ⟨_, hup, _⟩ := phase_excl s.phase hfwd
+      have hnu : s.urr = false := by
+        cases hu : s.urr with
+        | false => rfl
+        | true =>
+          rcases hfire rfl hu with hp | hp <;> (rw [hp] at hfwd; simp [fwdPhase] at hfwd)
+      refine ⟨k0, k1, k2, k3, k4, k5, k6, h7', k8, k9, hd.1, hd.2.1, k12, ?_, hd.2.2, ?_, k16, ?_, ?_, k19, ?_, k21, h22, h23, k24, k25, ?_, ?_, ?_, k29, h30, k31, k32, (fun hh => absurd hh (by simp [upOnResetStream, hcl]))⟩
+      · intro hh; exact absurd hh (by simp [upOnResetStream, hcl])
+      · intro _ hh; exact absurd hh (by simp [upOnResetStream, hup])
+      · intro _ hh; exact absurd hh (by simp [upOnResetStream, hpre])
+      · simp only [K18, upOnResetStream, destroyStream, ite_true] at k18 ⊢
+        grind
+      · intro hh; exact absurd hh (by simp [how])
+      · intro _ hp; exact absurd hp hnr
+      · intro _ _ _; left; simp [upOnResetStream, hsr]
+      · intro _ _; right; left; simp [upOnResetStream, hsr]
+    · -- the open stream of a streamed response is reset while the worker waits for the body
+      obtain ⟨hpre', hfw, _, _, _, _⟩ := phase_excl_up s.phase hupp
+      have hphase := hfire rfl hurr
+      obtain ⟨_, b2, _, b4, b5, b6, b7⟩ := k15 hcl hupp
+      refine ⟨k0, k1, k2, k3, k4, k5, k6, h7', k8, k9, hd.1, hd.2.1, k12, ?_, hd.2.2, ?_, ?_, ?_, ?_, k19, ?_, k21, h22, h23, k24, k25, ?_, ?_, ?_, k29, h30, k31, k32, (fun hh => absurd hh (by simp [upOnResetStream, hcl]))⟩
+      · intro hh; exact absurd hh (by simp [upOnResetStream, hcl])
+      · intro _ _
+        refine ⟨Or.inl hl0, by simpa [upOnResetStream] using b2, fun _ => by simpa [upOnResetStream] using hphase,
+          Or.inr (by simpa [upOnResetStream] using hurr), by simpa [upOnResetStream] using b5,
+          by simpa [upOnResetStream] using b6, by simpa [upOnResetStream] using b7⟩
+      · intro _ hh; exact absurd hh (by simp [upOnResetStream, hupp])
+      · intro _ hh; exact absurd hh (by simp [upOnResetStream, hpre'])
+      · intro _ hh; exact absurd hh (by simp [upOnResetStream, hfw])
+      · intro hh; exact absurd hh (by simp [how])
+      · intro _ hp; exact absurd hp hnr
+      · intro _ hh; exact absurd hh (by simp [upOnResetStream, hfw])
+      · intro _ _; left; simpa [upOnResetStream] using hurr
 
 theorem inv_upReset (c : Cfg) (ar aq : Nat) (s : S) (k : Nat) (r : Reason) (h : Inv c ar aq s) :
     Inv c ar aq (upResetL c s k r) := by
@@ -162,8 +212,33 @@ theorem inv_upReset (c : Cfg) (ar aq : Nat) (s : S) (k : Nat) (r : Reason) (h : 
       simp only [Bool.or_eq_true, Bool.not_eq_true', not_or, Bool.not_eq_false] at hcond
       obtain ⟨⟨hreal, hlive⟩, hcounted⟩ := hcond
       have hlc : streamLiveCounted s k = true := by simp [streamLiveCounted, hk, hlive, hcounted]
-      exact inv_reset_destroy c ar aq s k r st.listening h hlc
+      split
+      · exact h
+      · rename_i hbw
+        apply inv_reset_destroy c ar aq s k r st.listening h hlc
+        intro _ hu
+        have : bodyWait s = true := by
+          cases hb : bodyWait s with
+          | true => rfl
+          | false => simp [hu, hb] at hbw
+        simp only [bodyWait, Bool.and_eq_true, Bool.or_eq_true, beq_iff_eq] at this
+        exact this.1.1.2
 
+/-- the streamed body ended: the codec destroys the client stream -/
+theorem inv_upEnd (c : Cfg) (ar aq : Nat) (s : S) (k : Nat) (h : Inv c ar aq s) : Inv c ar aq (upEndL c s k) := by
+  unfold upEndL
+  cases hk : s.streams[k]? with
+  | none => exact h
+  | some st =>
+    simp only
+    split
+    · exact h
+    · rename_i hcond
+      simp only [Bool.or_eq_true, Bool.not_eq_true', not_or, Bool.not_eq_false] at hcond
+      obtain ⟨⟨⟨hreal, hlive⟩, hcounted⟩, _⟩ := hcond
+      have hlc : streamLiveCounted s k = true := by simp [streamLiveCounted, hk, hlive, hcounted]
+      have := inv_reset_destroy c ar aq s k .StreamLocalReset false h hlc (fun hh => by cases hh)
+      simpa using this
 
 theorem inv_upResp (c : Cfg) (ar aq : Nat) (s : S) (k code : Nat) (d t : Bool) (h : Inv c ar aq s) :
     Inv c ar aq (upResp c s k code d t) := by
@@ -177,8 +252,12 @@ theorem inv_upResp (c : Cfg) (ar aq : Nat) (s : S) (k code : Nat) (d t : Bool) (
     · rename_i hcond
       simp only [Bool.or_eq_true, Bool.not_eq_true', not_or, Bool.not_eq_false] at hcond
       obtain ⟨⟨hreal, hcounted⟩, hlive⟩ := hcond
+      split
+      · exact h
+      rename_i hnu
+      simp only [Bool.not_eq_true] at hnu
       have hlc : streamLiveCounted s k = true := by simp [streamLiveCounted, hk, hlive, hcounted]
-      obtain ⟨hcl, how, hfwd, hpre, hup, hsr⟩ := live_facts c ar aq s k h hlc
+      obtain ⟨hcl, how, hfwd, hpre, hup, hsr⟩ := live_facts c ar aq s k h hlc hnu
       have hdd := destroyStream_ledger c aq s k ⟨h.k10, h.k11, h.k14⟩
       have hd := hdd.1
       have hdead := hdd.2 (streamLiveCounted_le s k hlc)
@@ -198,27 +277,72 @@ theorem inv_upResp (c : Cfg) (ar aq : Nat) (s : S) (k code : Nat) (d t : Bool) (
         have hpos := liveCounted_pos s k hlc
         omega
       · have hl0 := allDead_liveCount hdead
-        have hpos := liveCounted_pos s k hlc
-        have h27 := k27 hcl hfwd
         intro _ _
         simp only [processDone, Bool.or_eq_true, Bool.and_eq_true, Bool.not_eq_true']
         intro hu
         by_cases hur : s.upReset = true
         · left; exact hur
         · right
-          refine ⟨?_, hl0⟩
-          by_cases hsu : s.urr = true
-          · rcases h27 hsu with h | ⟨_, h⟩
-            · exact absurd h hur
-            · omega
-          · simp only [Bool.not_eq_true] at hsu hur
-            simp [hsu, hur] at hu ⊢
-            simp [hu.1, hsr]
+          refine ⟨?_, Or.inl hl0⟩
+          simp only [Bool.not_eq_true] at hur
+          simp [hnu, hur] at hu ⊢
+          simp [hu.1, hsr]
       · simp only [K28, processDone, destroyStream] at k28 ⊢
         grind
       · intro _ hp
         have := (k30 hcl hp).1
         have hpos := liveCounted_pos s k hlc
+        rw [this] at hpos; simp at hpos
+
+/-- the head of a streamed response is accepted (or dropped): the client stream stays open -/
+theorem inv_upRespS (c : Cfg) (ar aq : Nat) (s : S) (k code : Nat) (d t : Bool) (h : Inv c ar aq s) :
+    Inv c ar aq (upRespS c s k code d t) := by
+  unfold upRespS
+  split
+  · exact inv_upResp c ar aq s k code d t h
+  rename_i hdt
+  have hmore : (d || t) = true := by cases d <;> cases t <;> simp at hdt ⊢
+  cases hk : s.streams[k]? with
+  | none => exact h
+  | some st =>
+    simp only
+    split
+    · exact h
+    · rename_i hcond
+      simp only [Bool.or_eq_true, Bool.not_eq_true', not_or, Bool.not_eq_false] at hcond
+      obtain ⟨⟨hreal, hcounted⟩, hlive⟩ := hcond
+      split
+      · exact h
+      rename_i hnu
+      simp only [Bool.not_eq_true] at hnu
+      have hlc : streamLiveCounted s k = true := by simp [streamLiveCounted, hk, hlive, hcounted]
+      obtain ⟨hcl, how, hfwd, hpre, hup, hsr⟩ := live_facts c ar aq s k h hlc hnu
+      have hnd : s.direct = false := not_direct_of_live h.k7 hcl (liveCounted_pos s k hlc)
+      have hpos := liveCounted_pos s k hlc
+      obtain ⟨k0, k1, k2, k3, k4, k5, k6, k7, k8, k9, k10, k11, k12, k13, k14, k15, k16, k17, k18, k19, k20, k21, k22, k23, k24, k25, k26, k27, k28, k29, k30, k31, k32, k33⟩ := h
+      refine ⟨k0, k1, k2, k3, k4, k5, k6, k7_intro (by simp [hsr]) (by simp [hnd]), k8, k9, k10, k11, k12, ?_, k14, ?_, k16, ?_, ?_, k19, k20, k21, k22,
+        k23, k24, k25, ?_, ?_, ?_, k29, ?_, k31, k32, (fun hh => absurd hh (by simp [hcl]))⟩
+      · intro hh; exact absurd hh (by simp [hcl])
+      · intro _ hh; exact absurd hh (by simp [hup])
+      · intro _ hh; exact absurd hh (by simp [hpre])
+      · simp only [K18, processDone] at k18 ⊢
+        grind
+      · intro _ hp
+        have := k23 hcl (Or.inr hp)
+        omega
+      · intro _ _
+        simp only [processDone, Bool.or_eq_true, Bool.and_eq_true, Bool.not_eq_true']
+        intro hu
+        by_cases hur : s.upReset = true
+        · left; exact hur
+        · right
+          simp only [Bool.not_eq_true] at hur
+          simp [hnu, hur] at hu ⊢
+          simp [hu.1, hsr, respHasMore, hmore]
+      · simp only [K28, processDone] at k28 ⊢
+        grind
+      · intro _ hp
+        have := (k30 hcl hp).1
         rw [this] at hpos; simp at hpos
 
 /-- facts available when a timer is armed and its callback wins the CAS -/
@@ -472,7 +596,7 @@ theorem inv_terminate (c : Cfg) (ar aq : Nat) (s : S) (code : Nat) (h : Inv c ar
   · intro _ _ _ _; right; right; rfl
   · simpa [K25] using k25
   · intro _ hh; exact absurd hh (by simp [hp])
-  · intro _ _ _; right; exact ⟨rfl, allDead_liveCount hled.2⟩
+  · intro _ _ _; right; exact ⟨rfl, Or.inl (allDead_liveCount hled.2)⟩
   · intro _ _; left; rfl
   · simpa [K29] using k29
   · intro _ hh; simp [hp] at hh
@@ -487,6 +611,8 @@ theorem inv_async (c : Cfg) (ar aq : Nat) (s : S) (l : Label) (hl : l ≠ .work)
   | work => exact absurd rfl hl
   | upResp k code d t => exact inv_upResp c ar aq s k code d t h
   | upReset k r => exact inv_upReset c ar aq s k r h
+  | upRespS k code d t => exact inv_upRespS c ar aq s k code d t h
+  | upEnd k => exact inv_upEnd c ar aq s k h
   | poolFail f => exact inv_poolFail c ar aq s f h
   | hostsGone => exact inv_hostsGone c ar aq s h
   | perTryFire => exact inv_perTryFire c ar aq s h
